@@ -96,7 +96,56 @@ func TestVerif_C05(t *testing.T) {
 	defer agg.flush()
 	defer func() { verifHook = nil; installTracer() }()
 	votePropID = "C05"
+	if f := regressF25(); f != nil {
+		oracle, deciding := "votefn", true
+		if f.key == "bootstrap-panic" {
+			oracle, deciding = "no-crash", false
+		}
+		ff := failFile{Property: "C05", Oracle: oracle, Key: f.key, Msg: f.msg, Deciding: deciding}
+		p := writeFailFile(ff)
+		emit(map[string]interface{}{"h": "x", "fail": map[string]interface{}{"oracle": oracle, "key": f.key, "msg": f.msg, "deciding": deciding, "known": knownKeys()[f.key], "file": p, "n": 2}})
+		if deciding && !knownKeys()[f.key] {
+			t.Fatalf("VIOLATION C05 %s: %s", f.key, f.msg)
+		}
+	}
 	rapid.Check(t, func(rt *rapid.T) { voteProp(rt, agg) })
+}
+
+// regressF25 is the shrunk case of finding F25 as a plain check: an empty node
+// grants its vote in term 2 and is bootstrapped afterwards.
+func regressF25() (fail *voteFail) {
+	base, err := os.MkdirTemp(shmRoot(), "verif-c05r-")
+	if err != nil {
+		return nil
+	}
+	defer os.RemoveAll(base)
+	if err := SetIdentity(base, clusterID, 1); err != nil {
+		return nil
+	}
+	v, err := openVoter(base)
+	if err != nil {
+		return &voteFail{"restart-failed", fmt.Sprintf("New on an empty directory: %v", err)}
+	}
+	defer v.close()
+	res, _ := v.handle(&voteReq{req: req{term: 2, src: 2}, transfer: true})
+	if res != success {
+		return nil
+	}
+	nodes := map[uint64]Node{1: {ID: 1, Addr: addrOf(1), Voter: true}, 2: {ID: 2, Addr: addrOf(2), Voter: true}}
+	t := ChangeConfig(Config{Nodes: nodes}).(changeConfig)
+	var pv interface{}
+	func() {
+		defer func() { pv = recover() }()
+		v.r.bootstrap(t)
+	}()
+	if pv != nil {
+		return &voteFail{"bootstrap-panic", fmt.Sprintf("bootstrapping a node that had granted its vote in term 2 panics: %v", pv)}
+	}
+	dt, dv, err := readTermFile(base)
+	if err != nil || dt != 2 || dv != 2 {
+		return &voteFail{"vote-forgotten", fmt.Sprintf("after vote (2,2) and bootstrap the term file holds (%d,%d) %v", dt, dv, err)}
+	}
+	return nil
 }
 
 var votePropID = "C05"
@@ -118,11 +167,19 @@ func voteFailf(rt *rapid.T, trace []string, key, format string, a ...interface{}
 	if key == "disruptive-vote-request-honoured" {
 		oracle = "stability"
 	}
-	ff := failFile{Property: votePropID, Oracle: oracle, Key: key, Msg: msg, Deciding: true, Trace: trace}
+	deciding := true
+	if key == "bootstrap-panic" {
+		// a process death, not a statement about votes: C15's subject
+		oracle, deciding = "no-crash", false
+	}
+	ff := failFile{Property: votePropID, Oracle: oracle, Key: key, Msg: msg, Deciding: deciding, Trace: trace}
 	p := writeFailFile(ff)
-	emit(map[string]interface{}{"h": "x", "fail": map[string]interface{}{"oracle": oracle, "key": key, "msg": msg, "deciding": true, "known": knownKeys()[key], "file": p, "n": len(trace)}})
+	emit(map[string]interface{}{"h": "x", "fail": map[string]interface{}{"oracle": oracle, "key": key, "msg": msg, "deciding": deciding, "known": knownKeys()[key], "file": p, "n": len(trace)}})
 	if knownKeys()[key] {
 		rt.Skip("known finding")
+	}
+	if !deciding {
+		rt.Skip("incidental")
 	}
 	rt.Fatalf("VIOLATION %s %s: %s\n%v", votePropID, key, msg, trace)
 }
@@ -150,8 +207,14 @@ func voteProp(rt *rapid.T, agg *aggStats) {
 	if err != nil {
 		rt.Fatalf("%v", err)
 	}
-	if err := st.bootstrap(Config{Nodes: nodes, Index: 1, Term: 1}); err != nil {
-		rt.Fatalf("%v", err)
+	// one case in four: the node is started empty and bootstrapped later through
+	// the real task handler (a ChangeConfig task on a node without configuration),
+	// possibly after it has been asked for votes by peers that were bootstrapped
+	late := rapid.IntRange(0, 3).Draw(rt, "lateBootstrap") == 0
+	if !late {
+		if err := st.bootstrap(Config{Nodes: nodes, Index: 1, Term: 1}); err != nil {
+			rt.Fatalf("%v", err)
+		}
 	}
 	_ = st.log.Close()
 	v, err := openVoter(dir)
@@ -195,8 +258,42 @@ func voteProp(rt *rapid.T, agg *aggStats) {
 
 	nops := rapid.IntRange(1, 25).Draw(rt, "nops")
 	for i := 0; i < nops; i++ {
-		op := rapid.SampledFrom([]string{"vote", "vote", "vote", "vote", "leader", "noleader", "append", "newterm", "selfvote", "restart", "state"}).Draw(rt, "op")
+		op := rapid.SampledFrom([]string{"vote", "vote", "vote", "vote", "leader", "noleader", "append", "newterm", "selfvote", "restart", "state", "bootstrap"}).Draw(rt, "op")
+		if !v.r.configs.IsBootstrapped() && (op == "append" || op == "selfvote" || op == "state") {
+			op = "bootstrap" // an empty node neither campaigns nor holds entries
+		}
 		switch op {
+		case "bootstrap":
+			if v.r.configs.IsBootstrapped() {
+				continue
+			}
+			t := ChangeConfig(Config{Nodes: nodes}).(changeConfig)
+			var pv interface{}
+			func() {
+				defer func() { pv = recover() }()
+				v.r.bootstrap(t)
+			}()
+			trace = append(trace, fmt.Sprintf("bootstrap -> err=%v panic=%v term=%d votedFor=%d", t.Err(), pv, v.r.term, v.r.votedFor))
+			classes["late-bootstrap"] = true
+			if m.maxTerm > 0 {
+				classes["late-bootstrap-after-contact"] = true
+			}
+			if pv != nil {
+				voteFailf(rt, trace, "bootstrap-panic", "bootstrapping a node that had already reached term %d panics: %v", m.maxTerm, pv)
+			}
+			if f := m.noteDisk(dir); f != nil {
+				voteFailf(rt, trace, f.key, "%s", f.msg)
+			}
+			if v.r.term < m.maxTerm {
+				voteFailf(rt, trace, "term-decreased", "term went from %d to %d through bootstrap", m.maxTerm, v.r.term)
+			}
+			if v.r.term != m.diskTerm || v.r.votedFor != m.diskVote {
+				voteFailf(rt, trace, "memory-differs-from-disk", "after bootstrap memory has (%d,%d), disk (%d,%d)", v.r.term, v.r.votedFor, m.diskTerm, m.diskVote)
+			}
+			if v.r.term > m.maxTerm {
+				m.maxTerm = v.r.term
+			}
+			v.r.state = Follower // (the handler makes it a candidate; the election itself is the selfvote op)
 		case "leader":
 			// hears from a leader of its current term (AppendEntries)
 			l := pickU64(rt, "ldr", candidates[:4])
